@@ -298,6 +298,8 @@ def call_builtin(eng, world, n, args, kwargs, node, fr):
     if n == "str":
         if not args:
             return VStr("")
+        if isinstance(a0, VDict) and a0.sym is not None:
+            return VStr(z3.String(eng.fresh_name("str_of_dict")))
         return eng.to_str(a0)
     if n == "repr":
         return eng.to_str(a0)
@@ -1295,11 +1297,16 @@ def time_time(eng, world, args, kwargs, node):
 def _stat_pred(name):
     def impl(eng, world, args, kwargs, node):
         m = eng.force(args[0])
+        if isinstance(m, VInt) and is_conc(m.z):
+            return VBool(bool(getattr(_stat, name.split(".")[-1])(m.z)))
         f = sfun(name.replace(".", "_"), INT, BOOL)
         eng.assumptions_used.add("stat.S_ISDIR / S_ISREG / S_ISLNK are mutually exclusive predicates of the mode word")
         z = zint(m.z)
         d, r = sfun("stat_S_ISDIR", INT, BOOL), sfun("stat_S_ISREG", INT, BOOL)
         eng.assume(z3.Not(z3.And(d(z), r(z))))
+        if eng.pc.need_axioms(("stat_consts",)):
+            # the two mode words VFSZip.stat fabricates (0o40755, 0o100644)
+            eng.assume(z3.And(d(z3.IntVal(16877)), z3.Not(r(z3.IntVal(16877))), r(z3.IntVal(33188)), z3.Not(d(z3.IntVal(33188)))))
         return VBool(f(z))
 
     return impl
@@ -1482,13 +1489,18 @@ def os_path_split(eng, world, args, kwargs, node):
     slash = z3.StringVal("/")
     head = sfun("posix_split_head", STR, STR)(z)
     tail = sfun("posix_split_tail", STR, STR)(z)
-    eng.assumptions_used.add("posixpath.split(p): tail is the text after the last '/', head the text before it with trailing slashes removed unless it is all slashes (CPython posixpath source); encoded as axioms on uninterpreted head/tail")
-    eng.assume(z3.Not(z3.Contains(tail, slash)))
-    eng.assume(z3.SuffixOf(tail, z))
-    eng.assume(z3.PrefixOf(head, z))
-    eng.assume(z3.Implies(z3.Not(z3.Contains(z, slash)), z3.And(head == z3.StringVal(""), tail == z)))
-    eng.assume(z3.Implies(z3.Contains(z, slash), z3.Length(head) + z3.Length(tail) < z3.Length(z) + z3.If(z3.InRe(head, z3.Plus(z3.Re(slash))), 1, 0)))
-    eng.assume(z3.Implies(z3.Contains(z, slash), z3.Length(head) + z3.Length(tail) + 1 <= z3.Length(z) + z3.If(z3.InRe(head, z3.Plus(z3.Re(slash))), z3.Length(head), 0)))
+    h0 = sfun("posix_split_h0", STR, STR)(z)
+    eng.assumptions_used.add("posixpath.split(p) [CPython source]: p = h0 + tail with tail the text after the last '/', head = h0 without its trailing slashes unless h0 is all slashes; encoded as defining axioms on uninterpreted head/tail")
+    if eng.pc.need_axioms(("posix_split", z.sexpr())):
+        allsl = z3.InRe(h0, z3.Star(z3.Re(slash)))
+        eng.assume(z == z3.Concat(h0, tail))
+        eng.assume(z3.Not(z3.Contains(tail, slash)))
+        eng.assume(z3.Or(h0 == z3.StringVal(""), z3.SuffixOf(slash, h0)))
+        eng.assume(z3.Implies(allsl, head == h0))
+        sl = sfun("posix_split_slashes", STR, STR)(z)
+        eng.assume(z3.Implies(z3.Not(allsl), z3.And(h0 == z3.Concat(head, sl), z == z3.Concat(head, sl, tail), z3.Length(head) > 0, z3.Not(z3.SuffixOf(slash, head)),
+                                                     z3.InRe(sl, z3.Plus(z3.Re(slash))))))
+        eng.assume(z3.PrefixOf(head, z))
     return VTuple([VStr(head), VStr(tail)])
 
 
@@ -1634,3 +1646,57 @@ def tb_print_exc(eng, world, args, kwargs, node):
 @ext("typing.cast")
 def typing_cast(eng, world, args, kwargs, node):
     return args[1]
+
+
+# ---- models used by the ZIP contracts (C16) ------------------------------------------------------------
+@ext("re.compile")
+def re_compile(eng, world, args, kwargs, node):
+    pat = eng.force(args[0])
+    o = VOpaque("pattern", z3.Const(eng.fresh_name("pattern"), U))
+    f = sfun("re_pattern_search", STR, STR, BOOL)
+    eng.assumptions_used.add("a compiled configuration pattern is an unknown predicate on strings (re.compile(config value).search)")
+
+    def search(eng2, o_, a, kw, node2):
+        subj = eng2.force(a[0])
+        hit = f(S(pat.z), S(subj.z))
+        return VOpt(z3.Not(hit), VOpaque("match", z3.Const(eng2.fresh_name("m"), U)))
+
+    o.attrs["methods"] = {"search": search}
+    return o
+
+
+@ext("zipfile.is_zipfile")
+def zipfile_is_zipfile(eng, world, args, kwargs, node):
+    eng.assumptions_used.add("zipfile.is_zipfile(path) reads the file at path and answers an arbitrary Boolean; it raises nothing (CPython: OSError is caught)")
+    return VBool(z3.Bool(eng.fresh_name("is_zipfile")))
+
+
+@ext("time.mktime")
+def time_mktime(eng, world, args, kwargs, node):
+    eng.assumptions_used.add("time.mktime is total on the tuples built from ZipInfo.date_time")
+    return VReal(z3.Real(eng.fresh_name("mktime")))
+
+
+@objimpl("ZipFile", "getinfo")
+def zipfile_getinfo(eng, world, o, args, kwargs, node):
+    eng.assumptions_used.add("ZipFile.getinfo(name) succeeds for every name stored in the member index (the index was built from the same archive)")
+    zi = VObj("ZipInfo", name=eng.fresh_name("zipinfo"))
+    zi.fieldty = {"file_size": "nat", "date_time": "tuple[int,int,int,int,int,int]", "filename": "str"}
+    return zi
+
+
+@objimpl("ZipFile", "open")
+def zipfile_open(eng, world, o, args, kwargs, node):
+    eng.assumptions_used.add("ZipFile.open(member) returns a readable binary stream for an indexed member")
+    return eng.fresh("obj:RFile", "zipmember")
+
+
+OBJ_METHODS["ZipFile"] = {"getinfo", "open"}
+
+
+@ext("codecs.getreader")
+def codecs_getreader(eng, world, args, kwargs, node):
+    o = VOpaque("streamreader_factory", z3.Const(eng.fresh_name("getreader"), U))
+    eng.assumptions_used.add("codecs.getreader(enc)(stream, errors=...) returns a text stream over the same bytes")
+    o.attrs["call"] = lambda eng2, a, kw, node2: eng2.fresh("obj:TFile", "reader")
+    return o
